@@ -16,7 +16,8 @@ import CoxeterVerif.Lemmas.Structure
     orientable, connected face graph the traversal returns the consistent orientation up to
     one global flip
   * `reverse_all_negates_volume`, `sort_simplices_volume_nonneg`, `poly_flip_negates_volume`
-  * `sorted_unique_spec`, `merged_faces_union`, `cp_sort_face_perm`, `dihedral_symm`
+  * `sorted_unique_spec`, `combine_simplices_faces`, `merged_faces_union`, `cp_sort_face_perm`,
+    `dihedral_symm`
 
   NOT provable here (stated in notes/C07.md and in the claim): Euler's relation `V − E + F = 2`
   and "the faces are THE facets of the convex hull" rest on Qhull's output; they are enforced
@@ -391,6 +392,29 @@ elements -/
 theorem sorted_unique_spec (l : List Nat) :
     (sortedUnique l).Pairwise (· < ·) ∧ ∀ x, x ∈ sortedUnique l ↔ x ∈ l :=
   ⟨sortedUnique_strict l, mem_sortedUnique l⟩
+
+noncomputable section
+
+/-- **C07 `_combine_simplices` faces.** Whatever groups the tolerance test produces, every face
+is the strictly increasing list of exactly the vertices of the simplices of its group
+(`np.unique`), one face per group. -/
+theorem combine_simplices_faces (E : List (Eqn ℝ)) (S : List Face) (tol : ℝ) :
+    let r := combineSimplices E S tol
+    r.1.length = r.2.2.length ∧
+    ∀ g, g < r.2.2.length →
+      (r.1.getD g []).Pairwise (· < ·) ∧
+      ∀ x, x ∈ r.1.getD g [] ↔ ∃ k ∈ r.2.2.getD g [], x ∈ S.getD k [] := by
+  simp only [combineSimplices]
+  refine ⟨by simp, ?_⟩
+  intro g hg
+  rw [List.getD_eq_getElem?_getD, List.getElem?_map, List.getElem?_eq_getElem hg]
+  simp only [Option.map_some, Option.getD_some]
+  refine ⟨sortedUnique_strict _, ?_⟩
+  intro x
+  rw [mem_sortedUnique, List.mem_flatMap, List.getD_eq_getElem?_getD, List.getElem?_eq_getElem hg]
+  simp
+
+end
 
 /-- **C07 merge_faces unions.** The merged face with label `l` consists exactly of the vertices
 of the faces carrying that label. -/
